@@ -438,6 +438,25 @@ PROPS["C36"] = {
                     "operations are issued at quiescent points (results of requests racing with ownership signals are ambiguous and not generated)"],
 }
 
+PROPS["C37"] = {
+    "level": "exploration",
+    "plan": zb_plan(("release", "miri")),
+    "rule": ("histories of 3..9 (5..16 thorough) rounds on a bus connection against the scripted bus: each round concurrently creates 0..3 handles "
+             "(MessageStreams over 5 rules incl. one shared with a proxy signal stream, proxies to a unique and two well-known names with/"
+             "without property cache, proxy signal streams) and drops ~1/3 of the live ones (sync Drop, async_drop, clone-then-drop-"
+             "original), in a quarter of the histories with the bus refusing AddMatch in some rounds; at the quiescent point: no rule "
+             "registered twice, no RemoveMatch of an unregistered rule, registered set == the connection's subscription table (cfg hook, "
+             "no zero-count entries), the harness's rules registered exactly while a handle lives with count == handles, nothing "
+             "registered once every handle is gone (always reached at the end); then the bus changes name owners and routes 0..6 signals "
+             "according to the REGISTERED rules, and every live handle must receive exactly the signals it is entitled to; distinct = "
+             "distinct (ops, schedule)"),
+    "gates": {"quick": {"evaluations": 2400, "distinct": 2000, "quiescent_points_checked": 12000, "add_match_calls": 8000, "remove_match_calls": 8000,
+                        "live_handle_rounds_checked": 25000, "signals_expected_at_handles": 10000, "class:handle-signal-stream": 2000, "class:point-with-no-handles": 2500},
+              "thorough": {"evaluations": 100000, "distinct": 80000}},
+    "assumptions": ["the scripted bus compares rules as parsed values (reference parser) and resolves well-known sender names with its owner table, as dbus-daemon does",
+                    "creations and drops of a round run concurrently; signals are sent at quiescent points (delivery racing with subscription changes is C20's subject)"],
+}
+
 PROPS["C38"] = {
     "level": "fault_enumeration",
     "plan": zb_plan(("release", "asan")),
